@@ -375,6 +375,29 @@ def main():
     C.sample({"error_states_played": n_states, "command_sequences": seqs[:6], "panic_candidates": n_paths})
     for k, why in not_enc.items():
         pass
+    # native companion (not a solver obligation): request *parameters* the kernels do not model - offsets of run / load
+    # requests that do not fit the input - must be answered too
+    def native_offsets():
+        bad = []
+        for req in ({"method": "run", "input": "1 + 1", "end_offset": 50}, {"method": "run", "input": "\u00e91 + 1", "offset": 1},
+                    {"method": "load", "input": "fun f() { 1 }", "path": "/var/tmp/verif-x.gdn", "offset": 0, "end_offset": 99},
+                    {"method": "run", "input": "1 + 1", "offset": 4, "end_offset": 2}):
+            s = native.JsonSession()
+            try:
+                s.send(req)
+                j, _, _ = s._read_response(native.MIN_TIMEOUT)
+                j2, _, _ = s.request("1 + 1", timeout=6)
+                if j is None or native.response_summary(j2)[:2] != ("ok", "2") or not s.alive():
+                    bad.append(req)
+            finally:
+                s.close()
+        return {"reproduced": bool(bad), "artefact": {"requests": bad}, "detail": f"{len(bad)} requests with offsets that do not fit the input are not answered"}
+    rep_off = native_offsets()
+    if rep_off["reproduced"]:
+        C.prove("request-offsets-answered", [], False, site="request/offsets-out-of-range", what="a run/load request whose offsets do not fit "
+                "the input kills the session", replay=lambda m: rep_off)
+    else:
+        C.validated_against_impl(4)
     # translator validation: histories whose behaviour is not in dispute
     for text, cmds in (('1 + ""', [":resume"]), ('1 + ""', [":abort"]), ('nosuchvariable', [":replace 42"])):
         rep = native_session("", text, cmds)
